@@ -1,5 +1,5 @@
 """C28 The LSP server answers every request and never dies."""
-REG_DRAFT = dict(
+REG = dict(
     engine='E2-bfs',
     technique='explicit-state breadth-first search over client message histories on the real lsp::handle_message (state = DocumentStore + shutdown flag, deduplicated), every request / malformed message explored from every reachable state; diagnostics compared with the real checker through an independent LSP text model; sampled histories and every violation replayed through a real `garden lsp` process with Content-Length framing',
     text="State-changing alphabet: didOpen/didChange/didClose x 2 URIs x 5 documents (valid; type error with CRLF and an emoji before the error; parse error; empty; e-acute/emoji outside strings) and shutdown (with and without id); histories of length <=3 (quick) / <=4 (thorough, closes the state space: 72 states, every transition taken). From every reachable state: every request method of handle_message x {open, unopened, on-disk, non-file URI, garbage URI} x positions {0:0, inside an identifier, end of line, inside a surrogate pair, line = line count, line >> count, character >> width}, every method with params missing / null / string / number / array / {} / mistyped fields / negative and non-integer numbers, notification-shaped requests, unknown methods with and without id, response-shaped messages, non-JSON and non-object messages, unusual ids, exit. Oracle: no panic; exactly one response carrying the request's id per request; none for notifications, responses and junk; after didOpen/didChange the published diagnostics equal (message, severity, range) those of the checker on the same text with ranges mapped by gvlib/lsp_text.py; a state reached by two histories answers a probe set identically.",
